@@ -705,7 +705,7 @@ def call_closure(ctx, q: str, same_module: bool = True, limit: int = 40) -> List
 
 
 # ------------------------------------------------------------------------------------------------ string dispatch
-def string_dispatch(f: FuncInfo, var: str):
+def string_dispatch(f: FuncInfo, var: str, module_tree: Optional[ast.Module] = None):
     """How function f dispatches on the string parameter `var`.  Returns (form, arms) with form in {'chain', 'table', None} and
     arms = {key: (node, names)} where node is the if-arm / table row and names the identifiers mentioned in it.
        chain : if var == 'a': ... elif var in ('b', 'c'): ...
@@ -720,9 +720,10 @@ def string_dispatch(f: FuncInfo, var: str):
                                {n.attr for st in s.body for n in ast.walk(st) if isinstance(n, ast.Attribute)})
     if arms:
         return 'chain', arms
-    # table form
+    # table form (a local table, or a module-level constant table)
     tables = {}
-    for s in ast.walk(f.node):
+    scopes = list(ast.walk(f.node)) + (list(module_tree.body) if module_tree is not None else [])
+    for s in scopes:
         if isinstance(s, ast.Assign) and isinstance(s.targets[0], ast.Name):
             rows = _table_rows(s.value)
             if rows:
@@ -737,8 +738,11 @@ def string_dispatch(f: FuncInfo, var: str):
             if isinstance(it, ast.Name) and it.id in tables:
                 tg = n.target.elts[0] if isinstance(n.target, ast.Tuple) and n.target.elts else n.target
                 if isinstance(tg, ast.Name) and any(
-                        isinstance(c, ast.Compare) and len(c.ops) == 1 and isinstance(c.ops[0], ast.Eq)
-                        and {getattr(c.left, 'id', None), getattr(c.comparators[0], 'id', None)} == {var, tg.id}
+                        isinstance(c, ast.Compare) and len(c.ops) == 1 and (
+                            (isinstance(c.ops[0], ast.Eq)
+                             and {getattr(c.left, 'id', None), getattr(c.comparators[0], 'id', None)} == {var, tg.id})
+                            or (isinstance(c.ops[0], ast.In) and getattr(c.left, 'id', None) == var
+                                and getattr(c.comparators[0], 'id', None) == tg.id))
                         for c in ast.walk(n)):
                     used = it.id
         if isinstance(n, ast.Subscript) and isinstance(n.value, ast.Name) and n.value.id in tables \
@@ -775,11 +779,19 @@ def _table_rows(v):
                 rows[k.value] = (val, {n.id for n in ast.walk(val) if isinstance(n, ast.Name)} |
                                  {n.attr for n in ast.walk(val) if isinstance(n, ast.Attribute)})
         return rows if len(rows) == len(v.keys) and rows else {}
+    def _row_keys(k):
+        if isinstance(k, ast.Constant) and isinstance(k.value, str):
+            return [k.value]
+        if isinstance(k, (ast.Tuple, ast.List, ast.Set)) and k.elts and all(isinstance(x, ast.Constant) and isinstance(x.value, str)
+                                                                            for x in k.elts):
+            return [x.value for x in k.elts]
+        return None
     if isinstance(v, (ast.Tuple, ast.List)) and v.elts and all(
-            isinstance(e, (ast.Tuple, ast.List)) and e.elts and isinstance(e.elts[0], ast.Constant) and isinstance(e.elts[0].value, str)
-            for e in v.elts):
+            isinstance(e, (ast.Tuple, ast.List)) and len(e.elts) >= 2 and _row_keys(e.elts[0]) is not None for e in v.elts):
         for e in v.elts:
-            rows[e.elts[0].value] = (e, {n.id for x in e.elts[1:] for n in ast.walk(x) if isinstance(n, ast.Name)} |
-                                     {n.attr for x in e.elts[1:] for n in ast.walk(x) if isinstance(n, ast.Attribute)})
+            names = {n.id for x in e.elts[1:] for n in ast.walk(x) if isinstance(n, ast.Name)} | \
+                {n.attr for x in e.elts[1:] for n in ast.walk(x) if isinstance(n, ast.Attribute)}
+            for key in _row_keys(e.elts[0]):
+                rows.setdefault(key, (e, names))
         return rows
     return {}
